@@ -340,12 +340,12 @@ func (r *Run) calleeName(c *ssa.CallCommon) string {
 		return "result:" + r.calleeName(&v.Call)
 	case *ssa.Phi:
 		if v.Comment != "" {
-			return "var:" + v.Comment
+			return "var:" + r.refName(v.Parent(), v.Comment)
 		}
 	case *ssa.Parameter:
-		return "param:" + v.Name()
+		return "param:" + r.refName(v.Parent(), v.Name())
 	case *ssa.FreeVar:
-		return "freevar:" + v.Name()
+		return "freevar:" + r.refName(v.Parent(), v.Name())
 	case *ssa.Field:
 		if s, ok := v.X.Type().Underlying().(*types.Struct); ok {
 			return "(" + typeKey(v.X.Type()) + ")." + s.Field(v.Field).Name()
@@ -379,9 +379,23 @@ func (fr *Frame) computeAnchors() {
 		return recs[i].seq < recs[j].seq
 	})
 	cnt := map[string]int{}
+	// old names of renamed variables (see names.go): a call through a local function variable is
+	// anchored by that variable's name
+	oldOf := map[string][]string{}
+	for old, cur := range fr.r.eng.aliasesFor(fr.fname, fr.fn) {
+		oldOf[cur] = append(oldOf[cur], old)
+	}
 	add := func(in ssa.Instruction, base string) {
 		cnt[base]++
 		fr.anchors[in] = append(fr.anchors[in], fmt.Sprintf("%s#%d", base, cnt[base]))
+		if i := strings.Index(base, "var:"); i >= 0 {
+			cur := base[i+4:]
+			for _, old := range oldOf[cur] {
+				ob := base[:i+4] + old
+				cnt[ob]++
+				fr.anchors[in] = append(fr.anchors[in], fmt.Sprintf("%s#%d", ob, cnt[ob]))
+			}
+		}
 	}
 	for _, rc := range recs {
 		switch in := rc.in.(type) {
@@ -1286,4 +1300,18 @@ func (e *Engine) staticAnchorCounts(fn *ssa.Function, depth int) map[string]int 
 		}
 	}
 	return out
+}
+
+// refName maps the current name of a variable of fn back to the name the contracts were written
+// with (names.json), so that contracts and anchors keyed by a variable name survive a rename.
+func (r *Run) refName(fn *ssa.Function, cur string) string {
+	if fn == nil || r.eng == nil {
+		return cur
+	}
+	for old, c := range r.eng.aliasesFor(r.eng.funcName(fn), fn) {
+		if c == cur {
+			return old
+		}
+	}
+	return cur
 }
